@@ -72,6 +72,43 @@ type plan struct {
 	hold        bool
 	arrived     chan string // "replace" | "upload": a held call reached its gate
 	release     chan fault
+	// A held request is PLANNED to make (after an optional initial Fetch) one Replace and then, if that succeeded, one
+	// Upload: only these two calls park at a gate (stage 0 -> Replace, stage 1 -> Upload). Whatever else the
+	// implementation calls (a re-fetch, a second Replace, an Upload before the Replace ...) is let through at once with
+	// fault ok and listed in unplanned, so that the request completes and its outcome can be judged.
+	stage     int
+	unplanned []string
+	// backend calls on checkpoint registers / objects since the last takeCalls (sequential requests: at most one each is planned)
+	nFetch, nReplace, nUpload int
+}
+
+// the backend calls beyond the plan since the last call of takeCalls ("" = none); resets the counters
+func (p *plan) takeCalls() string {
+	p.mu.Lock()
+	defer p.mu.Unlock()
+	var l []string
+	if p.hold || len(p.unplanned) > 0 {
+		l = p.unplanned
+	} else {
+		for _, c := range []struct {
+			n    int
+			name string
+		}{{p.nFetch, "fetch"}, {p.nReplace, "replace"}, {p.nUpload, "upload"}} {
+			for k := 1; k < c.n; k++ {
+				l = append(l, c.name)
+			}
+		}
+	}
+	p.unplanned = nil
+	p.nFetch, p.nReplace, p.nUpload = 0, 0, 0
+	s := ""
+	for _, x := range l {
+		s += "," + x
+	}
+	if s == "" {
+		return ""
+	}
+	return s[1:]
 }
 
 func newPlan() *plan {
@@ -82,6 +119,7 @@ func (p *plan) clear() {
 	p.mu.Lock()
 	p.fetch, p.cfgFetch, p.create, p.replace, p.cfgReplace, p.upload = fOK, fOK, fOK, fOK, fOK, fOK
 	p.keyed = nil
+	p.nFetch, p.nReplace, p.nUpload = 0, 0, 0
 	p.mu.Unlock()
 }
 
@@ -104,6 +142,10 @@ func (l simLock) Fetch(ctx context.Context, logID [32]byte) (ctlog.LockedCheckpo
 		f, l.p.cfgFetch = l.p.cfgFetch, fOK
 	} else {
 		f, l.p.fetch = l.p.fetch, fOK
+		l.p.nFetch++
+		if l.p.hold && l.p.stage > 0 {
+			l.p.unplanned = append(l.p.unplanned, "fetch")
+		}
 	}
 	l.p.mu.Unlock()
 	if f != fOK {
@@ -153,7 +195,15 @@ func (l simLock) Replace(ctx context.Context, old ctlog.LockedCheckpoint, new []
 	isCfg := o.id == l.st.cfgKey
 	var f fault
 	l.p.mu.Lock()
-	hold := l.p.hold && !isCfg
+	hold := false
+	if !isCfg {
+		l.p.nReplace++
+		if l.p.hold && l.p.stage == 0 {
+			hold, l.p.stage = true, 1
+		} else if l.p.hold {
+			l.p.unplanned = append(l.p.unplanned, "replace")
+		}
+	}
 	if isCfg {
 		f, l.p.cfgReplace = l.p.cfgReplace, fOK
 	} else if kf, ok := l.p.keyed[noteText(new)]; ok {
@@ -193,7 +243,13 @@ type simBackend struct {
 func (b simBackend) Upload(ctx context.Context, key string, data []byte, opts *ctlog.UploadOptions) error {
 	var f fault
 	b.p.mu.Lock()
-	hold := b.p.hold
+	hold := false
+	b.p.nUpload++
+	if b.p.hold && b.p.stage == 1 {
+		hold, b.p.stage = true, 2
+	} else if b.p.hold {
+		b.p.unplanned = append(b.p.unplanned, "upload")
+	}
 	if kf, ok := b.p.keyed[noteText(data)]; ok {
 		f = kf[1]
 	} else {
